@@ -137,7 +137,7 @@ def reported_pair_check(m, pred, ref, metric, order):
     return None
 
 
-def one_case(ctx, pred, ref, metric, thr, src, shared=False, big=None):
+def one_case(ctx, pred, ref, metric, thr, src, shared=False, big=None, from_config=None):
     if not pred.any() or not ref.any():
         return
     if big is None:
@@ -151,6 +151,25 @@ def one_case(ctx, pred, ref, metric, thr, src, shared=False, big=None):
         ctx.count("shared_matcher_object")
     else:
         m = MaximizeMergeMatching(matching_metric=impl.METRICS[metric], matching_threshold=thr[0] / thr[1])
+        if from_config if from_config is not None else (len(src) + pred.size) % 3 == 0:
+            # the matcher as it comes back from its saved configuration (what an evaluator loaded from a file uses)
+            import os
+            from common import VERIF
+            pth = str(VERIF / ".work" / f"c14_{os.getpid()}.yaml")
+            os.makedirs(os.path.dirname(pth), exist_ok=True)
+            try:
+                with quiet():
+                    m.save_to_config(pth)
+                    m = MaximizeMergeMatching.load_from_config(pth)
+                inp["matcher_from_saved_config"] = True
+                ctx.count("matcher_from_saved_config")
+            except Exception as e:
+                ctx.case(inp, True)
+                ctx.violation(f"the merge matcher could not be saved and loaded: {type(e).__name__}", inp, key={"kind": "raises"})
+                return
+            finally:
+                if os.path.exists(pth):
+                    os.remove(pth)
     try:
         with quiet():
             lm = m._match_instances(UnmatchedInstancePair(pred, ref))
@@ -295,6 +314,18 @@ def hairline_corpus(ctx):
             if 0.0 < t <= 1.0:
                 ctx.count("threshold_one_float_from_a_score")
                 one_case(ctx, pred, ref, metric, t.as_integer_ratio(), "corpus.hairline-threshold-one-ulp")
+
+
+def many_pairs_corpus(ctx):
+    """more candidate pairs than any batch size a scorer might use (1040 and 2100 overlapping pairs): 520 / 1050 references, each covered by a
+    weaker fragment with a low label and its best fragment with a high label — every reference ends with both"""
+    import scale
+    for n in ((520,) if ctx.quick else (520, 1050)):
+        rec = {"kind": "runs", "shape": [n * 11], "dtype": "uint16", "ref_runs": [[k * 11, 10, k + 1] for k in range(n)],
+               "pred_runs": [[k * 11, 4, k + 1] for k in range(n)] + [[k * 11 + 4, 6, n + k + 1] for k in range(n)]}
+        P, R = scale.build(rec)
+        ctx.count("more_than_a_thousand_candidate_pairs")
+        one_case(ctx, P, R, "IOU", (3, 10), f"corpus.many-pairs-{n}", big=rec)
 
 
 def big_and_small_corpus(ctx):
@@ -483,6 +514,7 @@ def run(ctx):
     singleton_corpus(ctx)
     narrow_corpus(ctx)
     big_and_small_corpus(ctx)
+    many_pairs_corpus(ctx)
     assd_above_one_corpus(ctx)
     hairline_corpus(ctx)
     rng = ctx.rng
@@ -533,4 +565,4 @@ def replay(ctx, rec):
         return
     dt = np.dtype(i.get("dtype", "uint8"))
     one_case(ctx, np.array(i["pred"], dtype=dt).reshape(i["shape"]), np.array(i["ref"], dtype=dt).reshape(i["shape"]),
-             i["metric"], tuple(i["thr"]), "replay")
+             i["metric"], tuple(i["thr"]), "replay", from_config=bool(i.get("matcher_from_saved_config")))
